@@ -123,6 +123,10 @@ def run(ctx: Context) -> None:
     ctx.rule('R07.6', "meshes: one node-sharing ring per buffer step keeping the originals; kept edges / nodes are those of the kept faces' rows; every old-to-new table is numbered arange over a sorted, duplicate free index array", floor=10)
     from .common import adopt_foundations as _adopt
     _adopt(ctx, 'R07.7', ['geometry', 'topology', 'order'], floor=100)
+    ctx.rule('R07.8', "the one-step clip is make_clip_mask followed by apply_clip_mask: the geometry, the buffer and the work directory arrive there as given", floor=3)
+    with ctx.section('R07.8'):
+        from . import infra as _infra8
+        _infra8.passes_parameters_on(ctx, 'R07.8', 'emsarray.conventions._base.Convention.clip', "clip stands for make_clip_mask and apply_clip_mask")
     ctx.assume("STRtree 'intersects' hit sets are monotone in the query geometry; numpy.nditer(..., order='C') and numpy.ndindex visit positions in C order (the nditer default 'K' follows the memory layout instead)")
     ctx.assume("NOT decided by execution: agreement of blur_mask / smear_mask with their definition on all small arrays; R07.3/R07.4 are the symbolic counterpart for all sizes")
 
@@ -237,7 +241,9 @@ def run(ctx: Context) -> None:
                 ctx.check('R07.2', ok, "the mask variable is declared on [y_dimension, x_dimension], matching the array's axes", fi, das[0] if das else fi.node)
             else:
                 cm = [c for c in calls_in(fi) if callee(ctx, fi, c) == f"{ARAKAWA}.c_mask_from_centres"]
-                ok = len(cm) == 1 and norm_text(cm[0].args[0]) == mname and 'self.grid_dimensions' in norm_text(flow.resolve(cm[0].args[1]))
+                _a0 = arg_or_kw(cm[0], 0, 'face_mask') if cm else None
+                _a1 = arg_or_kw(cm[0], 1, 'dimensions') if cm else None
+                ok = len(cm) == 1 and _a0 is not None and _a1 is not None and norm_text(_a0) == mname and 'self.grid_dimensions' in norm_text(flow.resolve(_a1))
                 ctx.check('R07.2', ok, "the face mask and the convention's own grid_dimensions go to c_mask_from_centres", fi, cm[0] if cm else fi.node)
 
     # ------------------------------------------------------------------ R07.3 blur_mask
@@ -583,6 +589,9 @@ _A = 'src/emsarray/conventions/arakawa_c.py'
 _U = 'src/emsarray/conventions/ugrid.py'
 _M = 'src/emsarray/masking.py'
 VARIANTS = [
+    V('C07', 'clip-drops-buffer', 'src/emsarray/conventions/_base.py', "        mask = self.make_clip_mask(clip_geomery, buffer=buffer)", "        mask = self.make_clip_mask(clip_geomery)", 'R07.8'),
+    V('C07', 'clip-repairs-geometry', 'src/emsarray/conventions/_base.py', "        mask = self.make_clip_mask(clip_geomery, buffer=buffer)", "        if not clip_geomery.is_valid:\n            clip_geomery = clip_geomery.buffer(0)\n        mask = self.make_clip_mask(clip_geomery, buffer=buffer)", 'R07.8'),
+    V('C07', 'benign-clip-keywords-reordered', 'src/emsarray/conventions/_base.py', "        return self.apply_clip_mask(mask, work_dir=work_dir)", "        return self.apply_clip_mask(clip_mask=mask, work_dir=work_dir)", None),
     V('C07', 'blur-visits-in-memory-order', 'src/emsarray/masking.py', "numpy.nditer(arr, ['multi_index'], order='C')", "numpy.nditer(arr, ['multi_index'])", 'R07.3'),
     V('C07', 'cf-predicate-within', _G, "        intersecting_indexes = self.strtree.query(clip_geometry, predicate='intersects')", "        intersecting_indexes = self.strtree.query(clip_geometry, predicate='within')", 'R07.1'),
     V('C07', 'ugrid-predicate-contains', _U, "        face_indexes = self.strtree.query(clip_geometry, predicate='intersects')", "        face_indexes = self.strtree.query(clip_geometry, predicate='contains')", 'R07.1'),
